@@ -70,6 +70,36 @@ ROWS = np.array([[1.9, 0.3, 0.2], [-1.7, 0.4, 0.6], [0.2, 2.1, -0.3], [0.3, -1.8
                  [0.1, 0.2, -2.2], [-2.4, -0.3, 0.3], [1.5, -1.6, -1.1]])
 
 
+def scaled(magpy, src, s):
+    """the same source in a length unit s times smaller/larger (static, first pose): geometry and position scale, excitation stays"""
+    m = magpy
+    pos = np.atleast_2d(src._position)[0] * s
+    kw = {"position": pos, "orientation": src._orientation[0]}
+    n = type(src).__name__
+    if n == "TriangularMesh":
+        return m.magnet.TriangularMesh(vertices=src.vertices * s, faces=src.faces, polarization=src.polarization, **kw)
+    if n in ("Cuboid", "Cylinder"):
+        return getattr(m.magnet, n)(dimension=np.array(src.dimension) * s, polarization=src.polarization, **kw)
+    if n == "CylinderSegment":
+        d = np.array(src.dimension, dtype=float) * np.array([s, s, s, 1, 1])
+        return m.magnet.CylinderSegment(dimension=d, polarization=src.polarization, **kw)
+    if n == "Sphere":
+        return m.magnet.Sphere(diameter=src.diameter * s, polarization=src.polarization, **kw)
+    if n == "Tetrahedron":
+        return m.magnet.Tetrahedron(vertices=src.vertices * s, polarization=src.polarization, **kw)
+    if n == "Triangle":
+        return m.misc.Triangle(vertices=src.vertices * s, polarization=src.polarization, **kw)
+    if n == "Circle":
+        return m.current.Circle(diameter=src.diameter * s, current=src.current, **kw)
+    if n == "Polyline":
+        return m.current.Polyline(vertices=src.vertices * s, current=src.current, **kw)
+    return m.misc.Dipole(moment=src.moment, **kw)
+
+
+# length units of the smallest-case variants (a body of 1e-9 m is an ordinary input)
+UNITS = {"inside": 1.0, "surface": 1.0, "surface-rows": 1.0, "inside-nm": 1e-9, "inside-km": 1e3}
+
+
 def sensors_for(magpy):
     # pixels: strictly inside most bodies, inside the open cylinder segment, near faces, outside, far
     pix = np.array([[0.1, 0.05, 0.08], [0.5, 0.2, 0.02], [0.3, -0.35, 0.2], [1.6, 0.4, 0.3], [-2.0, 3.0, 1.5], [8.0, -6.0, 7.0],
@@ -102,6 +132,9 @@ def batch_events(args):
                 classes = {type(pal[i]).__name__ for i in arr}
                 variants = [("inside", {i: pal[i].copy(position=np.atleast_2d(pal[i]._position)[0], orientation=pal[i]._orientation[0]) for i in set(arr)},
                              np.array(INSIDE.get(arr[-1], (0.31, 0.27, 0.22))))]
+                pin = np.array(INSIDE.get(arr[-1], (0.31, 0.27, 0.22)))
+                for vname in ("inside-nm", "inside-km"):
+                    variants.append((vname, {i: scaled(magpy, pal[i], UNITS[vname]) for i in set(arr)}, pin * UNITS[vname]))
                 if arr[-1] in SURFACE or arr[0] in SURFACE:
                     key = arr[-1] if arr[-1] in SURFACE else arr[0]
                     variants.append(("surface", {i: pal[i].copy(position=(0, 0, 0), orientation=None) for i in set(arr)}, np.array(SURFACE[key])))
